@@ -14,6 +14,7 @@ def sh(cmd, cwd=None, env=None):
 
 
 def lanes():
+    if os.environ.get('LANES'): return [int(x) for x in os.environ['LANES'].split(',')]
     return sorted(int(d.rsplit('v', 1)[1]) for d in glob.glob(L + '/v*'))
 
 
@@ -80,10 +81,35 @@ def seeds(args):
     for t in ths: t.join()
 
 
+def benign(ids):
+    import benign as B
+    ids = ids or sorted(os.path.basename(os.path.dirname(p)) for p in glob.glob(V + '/benign/*/patch.diff'))
+    jobs = queue.Queue()
+    for b in ids: jobs.put(b)
+    ls = lanes()
+    for i in ls: sync(i)
+    lock = threading.Lock()
+    def worker(i):
+        while True:
+            try: b = jobs.get_nowait()
+            except queue.Empty: return
+            only = os.environ.get('ONLY_CHECKS'); cs = [c for c in B.CHECKS[b.split('-')[0]] if not only or c in only.split(',')]
+            if not cs: continue
+            res = run_in_lane(i, '%s/benign/%s/patch.diff' % (V, b), cs, b)
+            with lock:
+                mp = '%s/benign/%s/meta.json' % (V, b)
+                m = json.load(open(mp)); m.setdefault('checks_exit', {}).update({c: r['exit'] for c, r in res.items()}); json.dump(m, open(mp, 'w'), indent=1)
+                print(b, m['checks_exit'], flush=True)
+    ths = [threading.Thread(target=worker, args=(i,)) for i in ls]
+    for t in ths: t.start()
+    for t in ths: t.join()
+
+
 if __name__ == '__main__':
     if sys.argv[1] == 'setup':
         for i in range(int(sys.argv[2])): sync(i); print('lane', i, 'ready')
     elif sys.argv[1] == 'seeds': seeds(sys.argv[2:])
+    elif sys.argv[1] == 'benign': benign(sys.argv[2:])
     elif sys.argv[1] == 'clean':   # baseline: no patch
         ls = lanes(); sync(ls[0]); print(run_in_lane(ls[0], None, sys.argv[2:], 'clean'))
     elif sys.argv[1] == 'teardown':
